@@ -73,6 +73,7 @@ class Ctx:
     def where(self, body, bb=None, idx="term"):
         if bb is None:
             return "%s:%d (%s)" % (body.loc["file"], body.loc["line"], short(body.path))
+        body = getattr(bb, "body", None) or body
         blk = body.blocks[bb]
         l = blk["term"]["loc"] if idx == "term" else blk["stmts"][idx]["loc"]
         return "%s:%d (%s bb%d)" % (l["file"], l["line"], short(body.path), bb)
@@ -266,19 +267,48 @@ class Ctx:
         return seen
 
     def deferred_closures(self):
-        """[(closure body, site, kind)] closures handed to a pool / thread"""
+        """[(closure body, site, kind)] closures handed to a pool / thread, directly or through
+        a crate-local helper whose parameter is what it submits (`fn run_on_pool<F>(&self, job: F)`)"""
         out = []
         prog = self.prog
+        seen = set()
+
+        def closures_of(body, t, s, kind, depth):
+            for st in subterms(t):
+                if st[0] == "agg" and st[1].startswith("closure:"):
+                    c = prog.by_path.get(st[1][8:])
+                    if c is not None and (c.path, s.body.path, s.bb) not in seen:
+                        seen.add((c.path, s.body.path, s.bb))
+                        out.append((c, s, kind))
+                elif st[0] == "param" and not body.is_closure() and depth < 4:
+                    for cs in prog.callers(body):
+                        if st[1] - 1 < len(cs.term["args"]):
+                            closures_of(cs.body, prog.bp(cs.body).arg_term(cs.bb, st[1] - 1), s, kind, depth + 1)
+
         for s in prog.sites():
             if s.ck in POOL_EXEC or s.ck in THREAD_SPAWN:
                 bp = prog.bp(s.body)
                 for ai in range(len(s.term["args"])):
-                    for st in subterms(bp.arg_term(s.bb, ai)):
-                        if st[0] == "agg" and st[1].startswith("closure:"):
-                            c = prog.by_path.get(st[1][8:])
-                            if c is not None:
-                                out.append((c, s, "pool" if s.ck in POOL_EXEC else "thread"))
+                    closures_of(s.body, bp.arg_term(s.bb, ai), s, "pool" if s.ck in POOL_EXEC else "thread", 0)
         return out
+
+    def helper_root(self, body):
+        """the outermost inherent method of the same type that reaches `body` through static
+        crate calls (a private helper chain): path tables are rooted there, with the helpers
+        inlined, so splitting a function into helpers does not change what is enumerated"""
+        cur = body
+        seen = {body.path}
+        while True:
+            adt = cur.j.get("impl_adt")
+            ups = {c.body.path: c.body for c in self.prog.callers(cur)
+                   if adt and c.body.j.get("impl_adt") == adt and not c.body.j.get("impl_trait") and not c.body.is_closure()}
+            if len(ups) != 1:
+                return cur
+            nxt = next(iter(ups.values()))
+            if nxt.path in seen:
+                return cur
+            seen.add(nxt.path)
+            cur = nxt
 
     def impls_of(self, trait_name, method):
         """crate bodies implementing trait::method"""
